@@ -53,8 +53,8 @@ def check(an, rep, tier):
     wh = {'utils._reshape', 'transformation.truncate', 'svd.matrix_svd', 'svd.matrix_skeleton',
           'act_many.add_many'}
     runs = sweep(an, rep, ['transformation.truncate', 'act_many.add_many'], ds,
-                 rules=S_RULES + ['U-cmp', 'U-cmp-lg', 'O-gram', 'G-cancel',
-                                 'G-sqrt'],
+                 rules=S_RULES + ['U-cmp', 'U-cmp-lg', 'U-abs', 'O-gram',
+                                 'G-cancel', 'G-sqrt'],
                  wheres=wh)
     for r in runs:
         if r.qualname != 'transformation.truncate':
@@ -122,7 +122,9 @@ def check(an, rep, tier):
         for q_, a, _ in r.I.call_log:
             if q_ not in ('svd.matrix_svd', 'svd.matrix_skeleton'):
                 continue
-            bad = [p for p in ('e', 'r') if _is_default(q_, p, a.get(p))]
+            # (only what the caller of this variant actually passes)
+            bad = [p for p in ('e', 'r') if p in r.variant and
+                   _is_default(q_, p, a.get(p))]
             rep.add('P-forward', 'transformation.truncate', '%s receives the '
                     'caller\'s accuracy and cap (%s)' % (q_, r.tag()),
                     'ok' if not bad else 'violation',
